@@ -15,7 +15,7 @@ import (
 
 func init() {
 	register(&Prop{
-		ID: "C03", Level: "exploration", Quick: 16000, Thorough: 500000,
+		ID: "C03", Level: "exploration", Quick: 80000, Thorough: 5000000,
 		Rule: "the first 64 trials are the exhaustive symbol table: every (reference symbol, query symbol) pair of the 17-symbol alphabet x letter case of either file x gap mode, embedded at varying columns of a 17..40-column alignment; the rest are generated alignments (width 1..40, 1..8 or 60..150 records, all symbol profiles, any FASTA layout) x --hard-gaps, each run under 3 seeded schedules with NumCPU in {1..16}; non-trivial = at least 2 queries and a record reached the writer out of input order in some run, or the trial is part of the symbol table; distinct = distinct (input, options)",
 		Gen:   genC03,
 		Check: checkC03,
